@@ -148,7 +148,11 @@ ExecX86(m, ins) ==
          IF d.k = "reg" /\ s.k = "reg" THEN WriteReg(m, d.g, d.id, n, ReadOp(m, s, n))      \* merge: upper part keeps old bytes
          ELSE WriteOp(m, d, n, ReadOp(m, s, n), "z")
   ELSE IF op \in X86FullVecMoves /\ no = 2 THEN
-         LET n == IF d.k = "reg" THEN d.sz ELSE s.sz IN WriteOp(m, d, n, ReadOp(m, s, n), "keep")
+         \* the encoder goes by register id: an operand recorded with a GP type in a vector move is the XMM register
+         \* of that id, and the move is 16 bytes wide
+         LET fix(o) == IF o.k = "reg" /\ o.g = "gp" THEN [o EXCEPT !.g = "vec", !.sz = 16] ELSE o
+             dd == fix(d) ss == fix(s)
+             n == IF dd.k = "reg" THEN dd.sz ELSE ss.sz IN WriteOp(m, dd, n, ReadOp(m, ss, n), "keep")
   ELSE IF op \in {"kmovb", "kmovw", "kmovd", "kmovq"} /\ no = 2 THEN
          LET n == KmovSize(op) IN WriteOp(m, d, n, ReadOp(m, s, n), "z")
   ELSE IF op \in {"cvtss2sd", "vcvtss2sd"} /\ d.k = "reg" THEN
